@@ -102,12 +102,12 @@ def features(ast, ty, log=(), exc=""):
     def ctup(e, p):
         return e["t"] == "tuple" and all(le.ctype(c, 8 * p + j, ty) != "obj" for j, c in enumerate(e["a"], 1))
 
-    def walk2(e, p):
-        t = e["t"]
-        pos = {"and": [1], "or": [1], "not": [1], "cond": [2], "slice": [2, 3], "tslice": [2, 3]}.get(t, [])
-        r = any(ctup(e["a"][j - 1], 8 * p + j) for j in pos)
-        return r or any(walk2(c, 8 * p + j) for j, c in enumerate(e["a"], 1))
-    f["ctuple_scalar_use"] = walk2(ast, 0)
+    def walk2(e, p, table):
+        r = any(ctup(e["a"][j - 1], 8 * p + j) for j in table.get(e["t"], []))
+        return r or any(walk2(c, 8 * p + j, table) for j, c in enumerate(e["a"], 1))
+    truth = {"and": [1], "or": [1], "not": [1], "cond": [2]}
+    f["ctuple_truth_test"] = walk2(ast, 0, truth)
+    f["ctuple_scalar_use"] = f["ctuple_truth_test"] or walk2(ast, 0, {"slice": [2, 3], "tslice": [2, 3]})
     if ast["t"] == "aug":
         tg = ast["a"][0]
         f["aug_target"] = "%s(%s)" % (tg["t"], tg["a"][0]["t"]) if tg["a"] else tg["t"]
@@ -118,6 +118,8 @@ def analyse(desc, want, got):
     """-> list of obs_class, one per separately recognisable difference (empty: equal).
     obs_class is computed from the observation; the matchers combine it with spec-side descriptor fields."""
     if isinstance(got, str):
+        if desc.get("cmp_chain_raise_in_later_operand"):
+            return ["wrong-after-double-decref"]     # undefined behaviour predicted for this case: a crash is one of its forms
         return ["crash" if got.startswith("CRASH") else "timeout"]
     w, wexc = collapse(want[0]), want[1]
     g, gexc = collapse(got[0]), got[1]
@@ -126,6 +128,12 @@ def analyse(desc, want, got):
     classes = []
     if desc.get("cmp_chain_raise_in_later_operand"):
         return ["wrong-after-double-decref"]
+    if desc.get("ctuple_truth_test"):
+        # the truth test was replaced by a constant: operands of the tuple are never evaluated
+        lw = {ev for ev in w if re.match(r"L\d+$", ev)}
+        lg = {ev for ev in g if re.match(r"L\d+$", ev)}
+        if lg < lw and gexc in ("", wexc):
+            return ["ctuple-truth-test-folded"]
     # (1) bool index arriving as int
     wb, gb = _bintnorm(w), _bintnorm(g)
     if _msd(wb, gb) < _msd(w, g):
@@ -329,7 +337,7 @@ def run(tier, seed):
         safe = [[m["work"][i][0], [v for k, v in enumerate(m["work"][i][1]) if k not in hz[i]]] for i in keep]
         res = le.run_work(d, "C", b.so, safe, "c_" + m["name"])
         hkeep = [i for i in keep if hz[i]]
-        hres = le.run_work(d, "C", b.so, [[m["work"][i][0], [m["work"][i][1][k] for k in hz[i]]] for i in hkeep], "h_" + m["name"]) if hkeep else []
+        hres = le.run_work(d, "C", b.so, [[m["work"][i][0], [m["work"][i][1][k] for k in hz[i]]] for i in hkeep], "h_" + m["name"], timeout=180) if hkeep else []
         full = [None] * len(m["work"])
         for i, r0 in zip(keep, res):
             if isinstance(r0, str):
